@@ -62,3 +62,25 @@ func Sharded(c *core.Ctx, n int, fn func(i int)) {
 		fn(i)
 	}
 }
+
+// Queries runs the given thunk bodies (not sharded: the caller selects its own work) in
+// batches and returns one observation per body.
+func Queries(c *core.Ctx, prelude string, bodies []string) []panrun.Obs {
+	res := make([]panrun.Obs, 0, len(bodies))
+	const B = 1500
+	for i := 0; i < len(bodies); i += B {
+		j := i + B
+		if j > len(bodies) {
+			j = len(bodies)
+		}
+		if c.Expired() {
+			c.Incomplete("enumeration stopped at the internal deadline")
+			for k := i; k < len(bodies); k++ {
+				res = append(res, panrun.Obs{Kind: "skipped"})
+			}
+			return res
+		}
+		res = append(res, c.R().Thunks(prelude, bodies[i:j], "")...)
+	}
+	return res
+}
